@@ -15,7 +15,7 @@ the provenance class of its path argument).
                         `directory ++ entry` for a real entry of the instrument path / module
                         directory that is not `.`/`..` and holds no `/` — a direct child
 * `C10_slash_never_matches`  names containing `/` (in particular every rewritten `:`/`\`) open nothing
-* `C10_companion_flt`, `C10_companion_mfp`, `C10_companion_none`   the `dirname+basename+suffix` sites
+* `C10_companion_flt_partial/_full/_counterexample`, `C10_companion_mfp`, `C10_companion_none`   the `dirname+basename+suffix` sites
 * `C10_exec`, `C10_exec_only_for_paths`, `C10_argv_single_argument`   helper programs
 * `C10_sites_guarded`, `C10_fields_guarded`, `C10_argv_tie`   the call-site premise, by `decide` over the generated table
 -/
@@ -207,11 +207,18 @@ theorem C10_dirbase (p : Bytes) :
   ⟨dirname_append_basename p, basename_no_slash p, dirname_shape p⟩
 
 /-- Startrekker: every name tried is the module's own path plus `.NT/.nt/.AS/.as`
-– a sibling of the module file – provided the path fits `filename[1024]`. -/
-theorem C10_companion_flt (p q : Bytes) (hlen : p.length + 3 < fltBufSize)
+– a sibling of the module file – provided the path fits `filename[1024]`.
+
+Full statement (every path): `C10_companion_flt_full` below, which holds when the
+code tests the length first (`fltLengthChecked`, a generated fact); for code that
+does not, `C10_companion_flt_counterexample` is the witness. -/
+theorem C10_companion_flt_partial (p q : Bytes) (hlen : p.length + 3 < fltBufSize)
     (hq : q ∈ fltCompanions (some p)) :
     ∃ x, q = getDirname p ++ x ∧ cSlash ∉ x ∧ x ≠ [cDot] ∧ x ≠ [cDot, cDot] ∧ q.drop p.length ∈ fltSuffixes := by
   unfold fltCompanions at hq
+  simp only at hq
+  split at hq
+  · simp at hq
   simp only [List.mem_map] at hq
   obtain ⟨sfx, hsfx, rfl⟩ := hq
   have hl3 : sfx.length = 3 ∧ cSlash ∉ sfx := by
@@ -220,7 +227,6 @@ theorem C10_companion_flt (p q : Bytes) (hlen : p.length + 3 < fltBufSize)
   have hfull : (getDirname p ++ getBasename p ++ sfx).length ≤ fltBufSize - 1 := by
     rw [dirname_append_basename]
     simp only [List.length_append, hl3.1]
-    unfold fltBufSize at hlen ⊢
     omega
   rw [List.take_of_length_le hfull]
   refine ⟨getBasename p ++ sfx, by simp, ?_, ?_, ?_, ?_⟩
@@ -236,6 +242,36 @@ theorem C10_companion_flt (p q : Bytes) (hlen : p.length + 3 < fltBufSize)
     simp [hl3.1] at this
   · rw [dirname_append_basename]
     simpa using hsfx
+
+/-- the full statement, for code that refuses names that do not fit -/
+theorem C10_companion_flt_full (hchk : fltLengthChecked = true) (p q : Bytes)
+    (hq : q ∈ fltCompanions (some p)) :
+    ∃ x, q = getDirname p ++ x ∧ cSlash ∉ x ∧ x ≠ [cDot] ∧ x ≠ [cDot, cDot] := by
+  by_cases hlen : p.length + 3 < fltBufSize
+  · obtain ⟨x, h1, h2, h3, h4, _⟩ := C10_companion_flt_partial p q hlen hq
+    exact ⟨x, h1, h2, h3, h4⟩
+  · unfold fltCompanions at hq
+    simp [hchk, hlen] at hq
+
+/-- a module path whose directory part alone is 1031 bytes -/
+def fltLongPath : Bytes := List.replicate 1030 0x64 ++ [cSlash, 0x6d]
+
+set_option maxRecDepth 200000 in
+/-- **Counterexample (finding `open:flt:truncated-path`)** for code that formats
+without testing the length: the name opened for `fltLongPath` is the first 1023
+bytes of the path – not inside the module's directory. -/
+theorem C10_companion_flt_counterexample (hchk : fltLengthChecked = false) :
+    ∃ q ∈ fltCompanions (some fltLongPath), ¬ ∃ x, q = getDirname fltLongPath ++ x := by
+  refine ⟨List.replicate (fltBufSize - 1) 0x64, ?_, ?_⟩
+  · unfold fltCompanions
+    simp only [hchk, Bool.false_and]
+    decide
+  · rintro ⟨x, hx⟩
+    have h1 := congrArg List.length hx
+    have h2 : (getDirname fltLongPath).length = 1031 := by decide
+    have h3 : fltBufSize = 1024 := by decide
+    simp only [List.length_replicate, List.length_append, h2, h3] at h1
+    omega
 
 /-- Magnetic Fields Packer: `smp.<rest of the base name>` next to the module, or that
 name cut at its last `-` plus `.set`. -/
@@ -400,7 +436,7 @@ def siteGuarded (s : Site) : Bool :=
     wrappers.any (fun w => w.1 == s.func && subset sk w.2.2)
   | .found copyChecked findChecked n buf =>
     copyChecked && findChecked && decide (3 ≤ n) && decide (n ≤ buf) && subset sk fileOpenSinks
-  | .dirBase sfx nullGuard => nullGuard && sfx.all okSuffix && subset sk fileOpenSinks
+  | .dirBase sfx nullGuard _ _ => nullGuard && sfx.all okSuffix && subset sk fileOpenSinks
   | .modDir => subset sk dirListSinks
   | .insPath => subset sk dirListSinks
   | .tempName => subset sk tempSinks
